@@ -170,11 +170,18 @@ type LangID uint16
 // Derived languages not exactly supported are mapped to their primary part : for instance,
 // 'fr-be' is mapped to 'fr'
 func NewLangID(l Language) (LangID, bool) {
-	if i, ok := binarySearchLang(l, languagesInfos[:knownLangsCount]); ok {
-		return LangID(i), true
+	// an exact match in either segment wins over a match of the primary part
+	first, okFirst := binarySearchLang(l, languagesInfos[:knownLangsCount])
+	if okFirst && languagesInfos[first].lang == l {
+		return LangID(first), true
 	}
 	if i, ok := binarySearchLang(l, languagesInfos[knownLangsCount:]); ok {
-		return knownLangsCount + LangID(i), true
+		if id := knownLangsCount + LangID(i); !okFirst || languagesInfos[id].lang == l {
+			return id, true
+		}
+	}
+	if okFirst {
+		return LangID(first), true
 	}
 	return 0, false
 }
